@@ -465,7 +465,9 @@ def unload(P, R):
         has_b = any(is_field(g[0], 'is_backend') and g[1] == '==' and const_of(g[2]) == 0 for g in gs)
         if has_r or has_b:
             guarded.append(s)
-            R.ob('C20.GRD.3', has_r and has_b, s, 'in the unload rounds a module is removed only with no reverse dependencies and not a backend', key='unload-guard')
+            # (the back-end test only postpones providers to a later round; the order among dependents and their
+            # dependencies rests on the reverse-list test alone, in every round)
+            R.ob('C20.GRD.3', has_r, s, 'in the unload rounds a module is removed only when no loaded module depends on it%s' % (' (and, in this round, it is not a back-end)' if has_b else ''), key='unload-guard')
             prog = [t for t in ca.stores() if t.ev['k'] == 'store' and is_var(t.ev.get('lhs')) and const_of(t.ev.get('rhs')) == 1 and t.ev.get('op') == '=']
             p = ca.path_avoiding(s, lambda t: t in prog, target=None)
             # the flag must be set before the next iteration: every path from the removal to the loop test passes it
@@ -473,11 +475,20 @@ def unload(P, R):
             tgt = nextit[0].bid if nextit else None
             pp = ca.path_avoiding(s, lambda t: t in prog, target=tgt) if tgt is not None else p
             R.ob('C20.GRD.3', bool(prog) and pp is None, s, 'every removal flags progress, so the rounds continue until nothing more can be unloaded', key='unload-progress')
-    R.ob('C20.GRD.3', len(guarded) == 1 and len(rems) >= 2, rems[0] if rems else ca, 'dependency-ordered rounds come first; the unconditional sweep only handles leftovers', key='unload-shape', nontrivial=False)
+    R.ob('C20.GRD.3', len(guarded) >= 1, rems[0] if rems else ca, 'dependency-ordered rounds come first; the unconditional sweep only handles leftovers', key='unload-shape', nontrivial=False)
     # rounds precede the sweep
     sweep = [s for s in rems if s not in guarded]
     if guarded and sweep:
-        R.ob('C20.GRD.3', all(ca.dominates(guarded[0].bid, s.bid) or guarded[0].bid not in ca.reach([s.bid]) for s in sweep), sweep[0], 'the leftover sweep cannot run before the ordered rounds finish', key='sweep-after-rounds')
+        R.ob('C20.GRD.3', all(g.bid not in ca.reach([e.dst for e in ca.out[s.bid]]) for g in guarded for s in sweep), sweep[0], 'the leftover sweep cannot run before the ordered rounds finish', key='sweep-after-rounds')
+    # every module that takes part in the order is offered to a round: a round that skips a kind of module (back-ends) is
+    # followed by one that does not, or what those modules depend on goes out in the sweep, in name order
+    if guarded:
+        def skips_backends(s):
+            return any(is_field(g[0], 'is_backend') and g[1] == '==' and const_of(g[2]) == 0 for g in ca.guards(s.bid))
+        full = [s for s in guarded if not skips_backends(s)]
+        part = [s for s in guarded if skips_backends(s)]
+        R.ob('C20.GRD.3', bool(full) and all(p.bid not in ca.reach([e.dst for e in ca.out[f.bid]]) or f.bid == p.bid for p in part for f in full[-1:]), (part or guarded)[0],
+             'back-end providers and what they depend on are unloaded in dependency order too: a round without the back-end exemption follows the rounds that have it', key='unload-backends')
     # the do-while continues while progress
     cl = P.need_fn('module_cleanup')
     rm = [s for s in cl.calls('const_string_vector_remove') if on_path(s.ev['args'][0], 'rdepends') and on_path(s.ev['args'][1], 'name')]
